@@ -39,7 +39,7 @@ func (c02) ID() string { return "C02" }
 
 func (c02) Plan(tier string) core.Plan {
 	if tier == "thorough" {
-		return core.Plan{Systematic: len(c02Sys), Seeded: 300000}
+		return core.Plan{Systematic: len(c02Sys) + 2, Seeded: 300000} // + two floods of 2^24 unusable candidates
 	}
 	return core.Plan{Systematic: len(c02Sys), Seeded: 24000}
 }
@@ -47,7 +47,7 @@ func (c02) Plan(tier string) core.Plan {
 func (c02) Meta() core.Meta {
 	return core.Meta{
 		Level: "exploration",
-		Rule: "systematic: the key-range table (0 in several encodings, 1, n-2, n-1, n, 2^256-1) and each single rejection rule first in the stream; seeded: (d, e, nonce stream) with streams crafted so the first candidates hit the rejection rules (k>=n, k=0, solved r=0, r+k=n, s=0) in random order and multiplicity, digests solved so r or s has 1-3 leading zero bytes, short reads/stalls mixed in at low rate. " +
+		Rule: "systematic: the key-range table (0 in several encodings, 1, n-2, n-1, n, 2^256-1) and each single rejection rule first in the stream; thorough tier only: two streams that begin with 2^24 unusable candidates (all 0xff, all zero); seeded: (d, e, nonce stream) with streams crafted so the first candidates hit the rejection rules (k>=n, k=0, solved r=0, r+k=n, s=0) in random order and multiplicity, digests solved so r or s has 1-3 leading zero bytes, short reads/stalls mixed in at low rate. " +
 			"non-trivial = at least one candidate rejected, a refused key, a short r/s, or a delivery fault fired; distinct = distinct (key class, rejection-reason sequence, r/s length classes, delivery faults fired, outcome)",
 		Components: map[string]string{"sm2.SignHashed": "real", "randomness source": "stub (simulated device)", "oracle": "sm2ref.Sign (GM/T 0003.2 over math/big affine arithmetic; anchored on the GM/T 0003.5 example, cross-checked with crypto/elliptic generic code)"},
 		Assumptions: []string{"sm2ref is correct (anchors in ref.SelfTest)", "private keys longer than 32 bytes are outside the statement (both refuse)",
@@ -133,6 +133,14 @@ func (c02) Generate(idx int, r *core.Rand, tier string) core.Script {
 			}
 		}
 		s.Content.TailSeed = cr.Uint64()
+		return s
+	}
+	if tier == "thorough" && idx < len(c02Sys)+2 {
+		// a source stuck on unusable output for half a gigabyte (all 0xff, all zero) before the
+		// first usable candidate: the call must simply carry on
+		cr := core.NewRand(core.Mix(0xC02, "flood", uint64(idx)))
+		s := &c02Script{Note: "sys: 2^24 unusable candidates first", E: hx(cr.Bytes(32)), Priv: hx(genPriv(cr))}
+		s.Content = rng.Content{Flood: 1 << 24, FloodZero: idx == len(c02Sys)+1, Candidates: []string{hx(ref.Pad32(randScalar(cr)))}, TailSeed: cr.Uint64()}
 		return s
 	}
 	w := r.Split("workload")
